@@ -20,6 +20,9 @@ REQUIRED_BRANCHES = [
     "real-planner-input", "real-input-with-deletions",
     # the score table of the Lean witness livelock_real_scores against the real ScoreSegments
     "witness-scores",
+    # the options a writer really uses (index.DefaultConfig / InMemoryOnlyConfig / DefaultConfigWithDirectory): equal to the
+    # planner's defaults, and plans / histories with them far beyond the first tier judged against the logarithmic budget
+    "writer-options-are-the-defaults", "writer-default-options-beyond-first-tier",
 ]
 ASSUMPTIONS = [
     "segment ids are pairwise distinct and 0 <= live <= full (idsDistinct, sizesSane; the driver evaluates them on every line, and the stream `real` evaluates them on every segment list a real writer's merger passed to the planner: bad:assumption-ids-distinct / bad:assumption-sizes-sane; the index allocates ids from an atomic counter). With distinct ids Go's comparison of the Segment interface values in removeSegments (pointer identity) is equality of the model's records and sort.Sort's result is the unique sorted permutation (theorem sorted_perm_unique), whatever algorithm sort.Sort uses",
@@ -45,6 +48,8 @@ def signature(rec):
         return "plan-only-noop-singletons"
     if v.startswith("bad:no-quiescence"):
         return "history-does-not-settle"
+    if v.startswith("bad:writer-"):
+        return "writer-merge-plan-options-" + v[11:].split(" ")[0]
     if v.startswith("bad:planner-did-not-return"):
         return "planner-did-not-return"
     if v.startswith("bad:"):
